@@ -90,6 +90,8 @@ structure DSt where
   held : String := ""
   /-- the last connection was a confirmed resumption (model) -/
   lastResumed : Bool := false
+  /-- the last connection established a session that was bound afresh (model) -/
+  lastFresh : Bool := false
 
 def init (fields : List String) : DSt :=
   let m := kv fields
@@ -117,10 +119,14 @@ def stepWith (which : Which) (d : DSt) (fields : List String) (impl : String) : 
     ((if d.sess.present then { d with sess := { d.sess with inbound := n.toNat?.getD 0 } } else d), .det "ok" impl true true)
   | ["hold", _, _] =>
     -- the application sent stanzas, some were acknowledged: the harness reports what is held now
-    ({ d with held := impl, lastResumed := false }, .det impl impl true true)
+    ({ d with held := impl, lastResumed := false, lastFresh := false }, .det impl impl true true)
   | ["heldcheck"] =>
     -- "if the server confirms that id the session continues ... keeping its identity, counters and held stanzas"
     if d.lastResumed then ({ d with lastResumed := false }, .det d.held impl true (impl == d.held))
+    else if d.lastFresh then
+      -- "... the stale resumption state is discarded": a session bound afresh holds nothing of the old one
+      let ok := impl == "held:" || impl == "noqueue"
+      ({ d with held := impl, lastFresh := false }, ⟨"held:", ok, true, ok, "-"⟩)
     else ({ d with held := impl }, .det impl impl true true)
   | ["pubapi"] =>
     -- Client.Connect, then Client.Resume (confirmed), a Resume the server refuses at SASL, a Resume again: "the
@@ -180,7 +186,8 @@ def stepWith (which : Which) (d : DSt) (fields : List String) (impl : String) : 
     let okI := match io with
       | some o => !o.crashed && spec o.established o.writes o.permanent o.sess
       | none => false
-    ((if kind == "apiconn" then d0 else { d with sess := r.sess, lastResumed := r.resumed && r.outcome == .established }), ⟨ms, ms == impl, okM, okI, "-"⟩)
+    ((if kind == "apiconn" then d0 else { d with sess := r.sess, lastResumed := r.resumed && r.outcome == .established,
+                                                     lastFresh := !r.resumed && r.outcome == .established }), ⟨ms, ms == impl, okM, okI, "-"⟩)
   | _ => (d, .bad)
 
 def handlerC03 : Handler := ⟨DSt, init, stepWith .c03⟩
